@@ -236,6 +236,19 @@ func golubKahanSVD(inSitu *InSitu, epsilon float64) (Matrix, Matrix, Matrix, err
       }
     }
   }
+  // singular values must be non-negative, flip the sign of negative
+  // diagonal entries together with the corresponding column of V
+  // so that U B V^T remains unchanged
+  for i := 0; i < n; i++ {
+    if b := B.At(i,i); b.GetFloat64() < 0.0 {
+      b.Neg(b)
+      if V != nil {
+        for j := 0; j < n; j++ {
+          V.At(j,i).Neg(V.At(j,i))
+        }
+      }
+    }
+  }
   if U != nil {
     U = U.T()
   }
